@@ -127,7 +127,7 @@ def case_key(c):
 def replay_of(c):
     return {"how": "go test -tags verif -run TestVerifHs13Dbg with VERIF_DBG='variant|mask|interval_ms|nobackoff|silence_from|"
                    "silence_until_ms|silence_to' (scripted network: action per emitted datagram index pass/drop/dup/hold:k, "
-                   "then reliable); see /verif/.work/hs13/dbg.sh",
+                   "then reliable); see /verif/tools/hs13_dbg.sh",
             "VERIF_DBG": "%s|%s|%d|%d|%d|%d|%s" % (c["variant"], ",".join(c["mask"] or []), c["interval_ms"],
                                                  1 if c["no_backoff"] else 0, c.get("silence_from") or 0,
                                                  c.get("silence_until") or 0, c.get("silence_to") or ""),
